@@ -300,6 +300,12 @@ func wirePolicy(w *World) {
 	} else if !mustTLS && !reply {
 		viol("policy", "plaintext-peer-refused-without-policy", "server without forced TLS did not answer a plaintext login")
 	}
+	// the same over the websocket entry of the bind port
+	if reply, _ := tryLogin("plaintext-websocket", PeerOpts{WS: true}); mustTLS && reply {
+		viol("policy", "plaintext-websocket-peer-answered", "server with force=%v trustedCa=%v answered a login sent over a websocket without TLS", force, trusted)
+	} else if !mustTLS && !reply {
+		viol("policy", "plaintext-websocket-peer-refused-without-policy", "server without forced TLS did not answer a plaintext login over a websocket")
+	}
 	// TLS peer without / with rogue / with good client certificate
 	for _, cs := range []struct {
 		what string
@@ -310,7 +316,8 @@ func wirePolicy(w *World) {
 		{"tls-rogue-client-cert", &tls.Config{InsecureSkipVerify: true, Certificates: []tls.Certificate{rogueCert}}, !trusted},
 		{"tls-good-client-cert", &tls.Config{InsecureSkipVerify: true, Certificates: []tls.Certificate{goodCert}}, true},
 	} {
-		reply, ok := tryLogin(cs.what, PeerOpts{TLS: true, TLSConfig: cs.cfg, CustomByte: r.Bool()})
+		ws := r.Intn(3) == 0
+		reply, ok := tryLogin(cs.what, PeerOpts{TLS: true, TLSConfig: cs.cfg, CustomByte: !ws && r.Bool(), WS: ws})
 		if cs.good && !(reply && ok) {
 			viol("policy", "acceptable-peer-refused-"+cs.what, "server force=%v trustedCa=%v refused %s", force, trusted, cs.what)
 		}
